@@ -61,6 +61,8 @@ class Author(Base):
     age = sa.Column(sa.Integer, nullable=False)
     country_id = sa.Column(sa.ForeignKey("country.id"))
     country = relationship("Country", back_populates="authors")
+    home_id = sa.Column(sa.ForeignKey("region.id"))
+    home = relationship("Region")
     posts = relationship("Post", back_populates="author")
     comments = relationship("Comment", back_populates="author")
 
@@ -80,6 +82,8 @@ class Post(Base):
     rating = sa.Column(sa.Integer, nullable=False)
     author_id = sa.Column(sa.ForeignKey("author.id"))
     author = relationship("Author", back_populates="posts")
+    home_id = sa.Column(sa.ForeignKey("country.id"))
+    home = relationship("Country")
     comments = relationship("Comment", back_populates="post")
     tags = relationship("Tag", secondary=post_tags, back_populates="posts")
 
